@@ -12,6 +12,17 @@
 //!   dpr state                        `<state>`
 //!   dpr sft <addr>                   `<has_sft_entry> <get_checked name>` of the global SFT map (`n/a` if not sparse)
 //!
+//! C28 (discontiguous monotone spaces): stand-alone `MonotonePageResource::new_discontiguous`s over the SAME private
+//! `Map32` (they share the pool of chunks with the page resources above):
+//!   dpr mnew <raw desc>              a new monotone page resource (at most 4) → `ok <state>`
+//!   dpr malloc <k> <pages>           what `Space::acquire` does: reserve_pages, get_new_pages, clear_request on failure
+//!                                    → `ok <chunk>+<byte offset in chunk> <pages> new_chunk=<0|1> <state>` | `fail <state>`
+//!   dpr mreset <k>                   `MonotonePageResource::reset()` (CopySpace::release) → `ok <state>`
+//! With at least one monotone resource `<state>` ends with ` mono=<m0>;<m1>…`, one entry per resource:
+//! `<cursor>,<sentinel>,<current chunk index>,<reserved>,<committed>,<head>,<c:n:prev/…|->,<chunk+off*pages/…|->`
+//! (cursor / sentinel: byte addresses; the region list walked from the resource's own head; the live grants = the
+//! grants answered since the last `mreset`, in the order they were made).
+//!
 //! `<state>` = `avail=<n> heads=<h0>,<h1>,… lists=<c:n:prev/c:n:prev|->;… desc=<d(FIRST-1)>,…,<d(LAST+1)>
 //! sft=<s(FIRST-1)>,…,<s(LAST+1)>|n/a` — `lists`: per space the regions reached from its REAL head by
 //! `get_next_contiguous_region` (≤ 64) with `get_contiguous_region_chunks` and `prev_link`; `sft`: per
@@ -25,8 +36,84 @@ pub const FIRST: usize = 100;
 pub const LAST: usize = 131;
 const LOG_CHUNK: usize = 22;
 
+/// One monotone page resource + the grants it answered since its last reset (start address, pages).
+struct MonoRes {
+    pr: hook::Mono<crate::VerifVM>,
+    grants: Vec<(usize, usize)>,
+}
+
 thread_local! {
     static D: RefCell<Option<hook::Dpr>> = const { RefCell::new(None) };
+    // always emptied before `D` is replaced: the resources point into `D`'s map
+    static M: RefCell<Vec<MonoRes>> = const { RefCell::new(Vec::new()) };
+}
+
+const MAX_MONO: usize = 4;
+
+thread_local! {
+    // set when the guard below answered `deadlock`: the real process would never answer again
+    static HUNG: std::cell::Cell<bool> = const { std::cell::Cell::new(false) };
+}
+
+/// Debug builds: `alloc_pages` calls `log_chunk_fields` — which locks `self.sync` — while it holds that very mutex,
+/// whenever the cursor is neither in `current_chunk` nor in the chunk after it. The call would never return (shown
+/// once per check run by a probe under a timeout, with VERIF_NO_DEADLOCK_GUARD set), so the harness answers
+/// `deadlock` INSTEAD of calling; the condition is read from the real fields.
+fn would_self_deadlock(m: &hook::Mono<crate::VerifVM>) -> bool {
+    if !cfg!(debug_assertions) || std::env::var_os("VERIF_NO_DEADLOCK_GUARD").is_some() {
+        return false;
+    }
+    let (cur, _, cc) = m.fields();
+    let al = cur.as_usize() & !((1 << LOG_CHUNK) - 1);
+    cc.as_usize() > cur.as_usize() || (al != cc.as_usize() && al != cc.as_usize() + (1 << LOG_CHUNK))
+}
+
+fn lenient(s: &str) -> Option<usize> {
+    if let Some(h) = s.strip_prefix("0x") {
+        usize::from_str_radix(h, 16).ok()
+    } else {
+        s.parse::<usize>().ok()
+    }
+}
+
+fn walk(d: &hook::Dpr, head: Address) -> String {
+    let mut c = head.as_usize() >> LOG_CHUNK;
+    let mut out = Vec::new();
+    while c != 0 && out.len() < 64 {
+        out.push(format!("{}:{}:{}", c, d.region_chunks(ca(c)), d.prev_link(c)));
+        c = d.next_region(ca(c)).as_usize() >> LOG_CHUNK;
+    }
+    if out.is_empty() { "-".to_string() } else { out.join("/") }
+}
+
+fn grant_str(start: usize, pages: usize) -> String {
+    format!("{}+{}*{}", start >> LOG_CHUNK, start & ((1 << LOG_CHUNK) - 1), pages)
+}
+
+fn mono_state(d: &hook::Dpr, ms: &[MonoRes]) -> String {
+    if ms.is_empty() {
+        return String::new();
+    }
+    let v: Vec<String> = ms
+        .iter()
+        .map(|m| {
+            let (cur, sen, cc) = m.pr.fields();
+            let (res, com) = m.pr.counters();
+            let grants: Vec<String> = m.grants.iter().map(|&(s, p)| grant_str(s, p)).collect();
+            format!(
+                "{},{},{},{},{},{},{},{}",
+                cur.as_usize(),
+                sen.as_usize(),
+                if cc.as_usize() & ((1 << LOG_CHUNK) - 1) == 0 { (cc.as_usize() >> LOG_CHUNK).to_string() } else { format!("{:#x}", cc.as_usize()) },
+                res,
+                com,
+                m.pr.head().as_usize() >> LOG_CHUNK,
+                walk(d, m.pr.head()),
+                if grants.is_empty() { "-".to_string() } else { grants.join("/") }
+            )
+        })
+        .collect();
+    format!(" mono={}", v.join(";"))
 }
 
 fn ca(chunk: usize) -> Address {
@@ -58,13 +145,16 @@ fn state(d: &hook::Dpr, sparse: bool) -> String {
     } else {
         "n/a".to_string()
     };
-    format!("avail={} heads={} lists={} desc={} sft={}", d.available(), heads.join(","), lists.join(";"), ds.join(","), sft)
+    let mono = M.with(|m| mono_state(d, &m.borrow()));
+    format!("avail={} heads={} lists={} desc={} sft={}{}", d.available(), heads.join(","), lists.join(";"), ds.join(","), sft, mono)
 }
 
 pub fn run(args: &[&str]) -> String {
     let sparse = hook::sft_is_sparse();
     if let ["new", n] = args {
+        M.with(|m| m.borrow_mut().clear()); // the monotone resources point into the old map: drop them first
         D.with(|d| *d.borrow_mut() = None); // drop the old tables first
+        HUNG.with(|h| h.set(false));
         if sparse {
             for c in FIRST - 1..=LAST + 1 {
                 hook::sft_clear(ca(c));
@@ -85,6 +175,10 @@ pub fn run(args: &[&str]) -> String {
     D.with(|d| {
         let d = d.borrow();
         let Some(d) = d.as_ref() else { return "no-instance".to_string() };
+        let hung = HUNG.with(|h| h.get());
+        if hung && matches!(args, ["grow", _, _, _] | ["release", _, _] | ["releaseall", _] | ["state"]) && args.iter().skip(1).take(1).all(|s| args[0] == "state" || unum(s) < d.spaces()) {
+            return "panic:other".to_string();
+        }
         let sp_ok = |s: &str| unum(s) < d.spaces();
         match args {
             ["grow", sp, raw, n] if sp_ok(sp) => {
@@ -104,6 +198,58 @@ pub fn run(args: &[&str]) -> String {
                 format!("ok {}", state(d, sparse))
             }
             ["state"] => state(d, sparse),
+            ["mnew", raw] => {
+                let Some(raw) = lenient(raw) else { return "bad-op".to_string() };
+                if M.with(|m| m.borrow().len()) >= MAX_MONO {
+                    return "bad-op".to_string();
+                }
+                let pr = d.new_mono::<crate::VerifVM>(raw);
+                M.with(|m| m.borrow_mut().push(MonoRes { pr, grants: Vec::new() }));
+                if hung {
+                    return "panic:other".to_string();
+                }
+                format!("ok {}", state(d, sparse))
+            }
+            ["malloc", k, pages] => {
+                let (Some(k), Some(pages)) = (lenient(k), lenient(pages)) else { return "bad-op".to_string() };
+                if k >= M.with(|m| m.borrow().len()) || pages >= 1 << 32 {
+                    return "bad-op".to_string();
+                }
+                if hung {
+                    return "panic:other".to_string();
+                }
+                // the RefCell borrow is released before the call: a panic inside must not leave it borrowed
+                let r = {
+                    let p: *const hook::Mono<crate::VerifVM> = M.with(|m| &m.borrow()[k].pr as *const _);
+                    let p = unsafe { &*p };
+                    if would_self_deadlock(p) {
+                        HUNG.with(|h| h.set(true));
+                        return "deadlock".to_string();
+                    }
+                    p.acquire(pages)
+                };
+                match r {
+                    Some((start, n, new_chunk)) => {
+                        M.with(|m| m.borrow_mut()[k].grants.push((start.as_usize(), n)));
+                        let a = start.as_usize();
+                        format!("ok {}+{} {} new_chunk={} {}", a >> LOG_CHUNK, a & ((1 << LOG_CHUNK) - 1), n, new_chunk as usize, state(d, sparse))
+                    }
+                    None => format!("fail {}", state(d, sparse)),
+                }
+            }
+            ["mreset", k] => {
+                let Some(k) = lenient(k) else { return "bad-op".to_string() };
+                if k >= M.with(|m| m.borrow().len()) {
+                    return "bad-op".to_string();
+                }
+                if hung {
+                    return "panic:other".to_string();
+                }
+                let p: *const hook::Mono<crate::VerifVM> = M.with(|m| &m.borrow()[k].pr as *const _);
+                unsafe { &*p }.reset();
+                M.with(|m| m.borrow_mut()[k].grants.clear());
+                format!("ok {}", state(d, sparse))
+            }
             _ => "bad-op".to_string(),
         }
     })
